@@ -100,7 +100,10 @@ def join_extra(x, y):
     if x is y or x == y: return x
     if x is None or y is None: return None
     if not (isinstance(x, tuple) and isinstance(y, tuple)) or not x or not y or x[0] != y[0]: return None
-    if x[0] == 'slicelen': return ('slicelen', min(x[1], y[1]), max(x[2], y[2]))
+    if x[0] == 'slicelen':
+        r = ('slicelen', min(x[1], y[1]), max(x[2], y[2]))
+        if len(x) > 3 and len(y) > 3 and x[3] == y[3] and x[3] is not None: r = r + (x[3],)
+        return r
     if x[0] == 'iter':
         if x[1] != y[1] or len(x) != len(y): return None
         def jitem(p, q):
@@ -494,6 +497,10 @@ class Interp:
             st.m[(1, path)] = av.clone(vid=None)
         for pk, spec in con.items():
             key = _contract_key(pk)
+            if 'len' in spec:
+                cur = st.m.get(key)
+                st.m[key] = AV('ref', ty=self._ty_of_key(key), tgt=(key[0], key[1] + ('*',)), extra=('slicelen', spec['len'][0], spec['len'][1]))
+                continue
             av = self._from_spec(spec, self._ty_of_key(key))
             if av is not None: st.m[key] = av
         return st
@@ -824,8 +831,15 @@ class Interp:
                 res = top_int(ty); math_r = None
             else:
                 lo, hi, ov = clamp_ty(r[0], r[1], ty)
+                checked = op.endswith('WithOverflow')
+                if checked and ov:
+                    # the `.0` of a checked operation is only used after `assert(!.1)`: on that path the mathematical result is in range
+                    tlo_, thi_ = int_range(ty[1], ty[2])
+                    lo, hi = max(r[0], tlo_), min(r[1], thi_)
+                    if lo > hi: lo, hi = tlo_, thi_
+                    ov = False
                 res = mk_int(lo, hi, ty); math_r = r
-                if base == 'Mul' and a.lo >= 0 and b.lo >= 0: res.extra = ('mul', a.vid, b.vid)
+                if base == 'Mul' and a.lo >= 0 and b.lo >= 0: res.extra = ('mul', a.vid, b.vid, a.lo if a.lo == a.hi else None, b.lo if b.lo == b.hi else None)
                 if base == 'Rem' and a.lo >= 0 and b.lo >= 0: res.extra = ('rem', a.vid)
                 if not ov:
                     if base == 'Add' and b.lo == b.hi: res.lin = _lin(a, b.lo)
@@ -1002,7 +1016,7 @@ class Interp:
             for v, nv in ((a, na), (b, nb)):
                 if v.k == 'int' and nv.lo >= 1 and v.extra and v.extra[0] in ('mul', 'rem'):
                     # a product of non-negative factors is >= 1 only if both are; x % m >= 1 only if x >= 1
-                    for fv in v.extra[1:]:
+                    for fv in v.extra[1:3]:
                         st.refine_vid(fv, lambda w: w.clone(lo=max(w.lo, 1)) if w.k == 'int' and w.hi >= 1 else None)
             # propagate through `x = y + c` links: refine the base value as well
             for v, nv in ((a, na), (b, nb)):
@@ -1417,6 +1431,13 @@ class Interp:
             key = _contract_key(pk)
             i = key[0] - 1
             if i >= len(args): continue
+            if 'len' in spec:
+                if key[1]: continue
+                lo, hi, sym = self.ctx.models.slice_len(self, st, args[i])
+                ok = spec['len'][0] <= lo and hi <= spec['len'][1]
+                self.sites.append(Site(self.name, bb, 'contract:%s:param%d' % (callee.split('::', 1)[1], key[0]), ok,
+                                       'slice argument of length [%s,%s] must have length in %s (%s)' % (lo, hi, spec['len'], spec.get('why', '')), t['span'], [repr(args[i])]))
+                continue
             want = self._from_spec(spec, None)
             a = args[i]
             if key[1]:
